@@ -32,6 +32,7 @@ type Contract struct {
 	Invs       map[int][]*Clause
 	Flags      map[string]bool
 	Unfold     int
+	UnfoldNames []string
 	Line       int
 	Props      []string
 }
@@ -155,7 +156,13 @@ func LoadContracts(path string) (*Contracts, error) {
 					cur.Flags[fl] = true
 				}
 			case "unfold":
-				cur.Unfold, _ = strconv.Atoi(rest)
+				for _, w := range strings.Fields(rest) {
+					if n, err := strconv.Atoi(w); err == nil {
+						cur.Unfold = n
+					} else {
+						cur.UnfoldNames = append(cur.UnfoldNames, strings.Trim(w, ","))
+					}
+				}
 			case "modifies":
 				for _, m := range splitTop(rest, ',') {
 					if m == "" {
